@@ -40,9 +40,11 @@ EX = {
         "create_tera() only registers templates embedded with include_str!; input-independent (every embedded template parses: re-checked by srcfacts each run)",
     ("tauri_typegen::interface::output::ProgressReporter::new", "Result::unwrap"):
         "ProgressStyle::template(<string constant>): input-independent",
-    ("tauri_typegen::generators::TypeCollector::create_command_contexts::{closure#0}::{closure#0}", "RefCell::borrow_mut"):
+    ("tauri_typegen::generators::TypeCollector::create_command_contexts::{closure}::{closure}", "RefCell::borrow_mut"):
         "the RefCell is created by get_type_resolver() for this call; the borrow is a temporary inside a non-reentrant closure (parse_type_structure never calls back)",
-    ("tauri_typegen::generators::TypeCollector::create_event_contexts::{closure#0}::{closure#0}", "RefCell::borrow_mut"):
+    ("tauri_typegen::generators::TypeCollector::create_event_contexts::{closure}", "overflow:Add:deref"):
+        "per-identifier occurrence counter, incremented once per distinct event (bounded by the number of emit calls in the sources)",
+    ("tauri_typegen::generators::TypeCollector::create_event_contexts::{closure}::{closure}", "RefCell::borrow_mut"):
         "the RefCell is created by get_type_resolver() for this call; the borrow is a temporary inside a non-reentrant closure (parse_type_structure never calls back)",
     ("tauri_typegen::interface::config::GenerateConfig::save_to_tauri_config", "Option::unwrap:as_object_mut-after-is_object-repair"):
         "the value is replaced by json!({}) on the !is_object() edge, so as_object_mut() is Some on every path (the is_object test dominates: re-checked)",
@@ -81,6 +83,9 @@ def check(ctx):
         counts[kind] = counts.get(kind, 0) + 1
         r.ok(text if counts[kind] <= 2 else None)
 
+    def exkey(fid):
+        return re.sub(r"\{closure#\d+\}", "{closure}", fid)
+
     for fid in sorted(reach):
         f = P.fns[fid]
         if "{promoted#" in fid:
@@ -97,9 +102,9 @@ def check(ctx):
                 res, why, ident = discharge_assert(f, sym, b, t)
                 if res:
                     ok("assert:" + kind.split(":")[0], "%s @%s:%s — %s" % (short_path(fid), t["span"]["file"], t["span"]["line"], why))
-                elif (fid, ident) in EX:
-                    used_ex.add((fid, ident))
-                    ok("EX", "%s: %s — reviewed: %s" % (short_path(fid), ident, EX[(fid, ident)]))
+                elif (exkey(fid), ident) in EX:
+                    used_ex.add((exkey(fid), ident))
+                    ok("EX", "%s: %s — reviewed: %s" % (short_path(fid), ident, EX[(exkey(fid), ident)]))
                 else:
                     r.bad(V(r.id, fid, ident, "arithmetic/bounds check `%s` can fail: %s" % (t["span"].get("snip", kind), why), t["span"]["file"], t["span"]["line"]))
             elif t["k"] == "call":
@@ -110,19 +115,19 @@ def check(ctx):
                 res, why, ident = discharge_call(P, f, sym, c)
                 if res:
                     ok("call:" + short_path(c.path), "%s @%s — %s" % (short_path(fid), c.where(), why))
-                elif (fid, ident) in EX:
+                elif (exkey(fid), ident) in EX:
                     if ex_side_condition(f, c, ident):
-                        used_ex.add((fid, ident))
-                        ok("EX", "%s: %s — reviewed: %s" % (short_path(fid), ident, EX[(fid, ident)]))
+                        used_ex.add((exkey(fid), ident))
+                        ok("EX", "%s: %s — reviewed: %s" % (short_path(fid), ident, EX[(exkey(fid), ident)]))
                     else:
-                        r.bad(V(r.id, fid, ident + ":side-condition-lost", "reviewed exemption no longer applies: %s" % EX[(fid, ident)], c.file, c.line))
-                elif (fid, ident) in EX_ORDER:
-                    used_ex.add((fid, ident))
-                    ok("EX", "%s: %s — reviewed: %s" % (short_path(fid), ident, EX_ORDER[(fid, ident)]))
+                        r.bad(V(r.id, fid, ident + ":side-condition-lost", "reviewed exemption no longer applies: %s" % EX[(exkey(fid), ident)], c.file, c.line))
+                elif (exkey(fid), ident) in EX_ORDER:
+                    used_ex.add((exkey(fid), ident))
+                    ok("EX", "%s: %s — reviewed: %s" % (short_path(fid), ident, EX_ORDER[(exkey(fid), ident)]))
                 else:
                     r.bad(V(r.id, fid, ident, "`%s` can panic: %s" % (re.sub(r"\s+", " ", c.snip)[:90], why), c.file, c.line))
     for k in list(EX) + list(EX_ORDER):
-        if k not in used_ex and k[0] in reach:
+        if k not in used_ex and (k[0] in reach or "{closure}" in k[0]):
             r.notes.append("stale exemption (no matching site any more): %s | %s" % k)
     r.notes.append("%d compiler-inserted pointer alignment/null checks on safe references (cannot fail in safe code) not counted" % ptr_checks)
     r.notes.append("discharged per kind: %s" % ", ".join("%s=%d" % kv for kv in sorted(counts.items())))
